@@ -265,17 +265,31 @@ fn exec_history(sc: &Scenario) -> Outcome {
             Some(*r)
         }
     };
-    // fresh verdicts: a newly built rule per document
+    // fresh verdicts: a newly built rule per document, each on a brand-new OS thread so that
+    // thread-local state of the engine or its dependencies starts empty
     let mut fresh = vec![];
     for doc in &sc.docs {
-        let r = match build(&mut stats) {
-            Some(r) => r,
-            None => return Outcome::clean(&d, stats),
-        };
-        match verdict(&r, doc, &sc.render) {
-            Ok(v) => fresh.push(v),
-            Err(_) => {
+        let got: Option<Option<bool>> = std::thread::scope(|s| {
+            std::thread::Builder::new()
+                .stack_size(8 << 20)
+                .spawn_scoped(s, || {
+                    let mut st = Stats::default();
+                    let r = build(&mut st)?;
+                    Some(verdict(&r, doc, &sc.render).ok())
+                })
+                .ok()?
+                .join()
+                .ok()?
+        });
+        stats.inc("fresh_thread_verdicts");
+        match got {
+            Some(Some(v)) => fresh.push(v),
+            Some(None) => {
                 stats.inc("match_panicked_not_c12");
+                return Outcome::clean(&d, stats);
+            }
+            None => {
+                stats.inc("load_rejected");
                 return Outcome::clean(&d, stats);
             }
         }
